@@ -847,8 +847,10 @@ impl CircuitBuilder {
     pub fn push_xor(&mut self, x: GateIndex, y: GateIndex) -> GateIndex {
         #[cfg(feature = "verif_hooks")]
         if crate::verif_hooks::intercept() {
+            let before = self.gates.len();
             let ret = self.push_xor(x, y);
-            crate::verif_hooks::record_req(crate::verif_hooks::ReqKind::Xor, x, y, ret);
+            let after = self.gates.len();
+            crate::verif_hooks::record_req(crate::verif_hooks::ReqKind::Xor, x, y, ret, before, after);
             return ret;
         }
         if let Some(optimized) = self.optimize_xor(x, y) {
@@ -978,8 +980,10 @@ impl CircuitBuilder {
     pub fn push_and(&mut self, x: GateIndex, y: GateIndex) -> GateIndex {
         #[cfg(feature = "verif_hooks")]
         if crate::verif_hooks::intercept() {
+            let before = self.gates.len();
             let ret = self.push_and(x, y);
-            crate::verif_hooks::record_req(crate::verif_hooks::ReqKind::And, x, y, ret);
+            let after = self.gates.len();
+            crate::verif_hooks::record_req(crate::verif_hooks::ReqKind::And, x, y, ret, before, after);
             return ret;
         }
         if let Some(optimized) = self.optimize_and(x, y) {
